@@ -179,6 +179,12 @@ package forwarder
 //@   requires g != nil && g.link != nil && g.link.conn != nil && g.bsnl != nil && g.bsnl.handler != nil && req != nil
 //@   modifies *
 //@   serves C13 C02 C07
+//@   at call append#1:
+//@     assert [act]  len(arg1) == 1 && arg1[0].Type == gtp5gnl.FAR_APPLY_ACTION && arg1[0].Value == iface(nl.AttrU16(act.Flags))
+//@   at call append#2:
+//@     assert [fp]   len(arg1) == 1 && arg1[0].Type == gtp5gnl.FAR_FORWARDING_PARAMETER && arg1[0].Value == iface(v)
+//@   at call append#3:
+//@     assert [bar]  len(arg1) == 1 && arg1[0].Type == gtp5gnl.FAR_BAR_ID && arg1[0].Value == iface(nl.AttrU8(v))
 //@   at call applyAction:
 //@     assert [seid]  arg0 == lSeid
 //@     assert [farid] forall j int :: idx < j && j < len(ies) ==> ies[j].Type != ie.FARID
@@ -320,10 +326,10 @@ package forwarder
 
 //@ func (g *Gtp5g) CreatePDR(lSeid uint64, req *ie.IE) (err error)
 //@   requires g != nil && g.link != nil && req != nil
-//@   modifies nothing
+//@   modifies FDSRC, FDDST
 //@   serves C02 C07
 //@   loop range(ies):
-//@     modifies nothing
+//@     modifies FDSRC, FDDST
 //@   at call newPdi:
 //@     assert [pdi]  arg0 == i
 //@   at call append#1:
@@ -345,10 +351,10 @@ package forwarder
 
 //@ func (g *Gtp5g) UpdatePDR(lSeid uint64, req *ie.IE) (err error)
 //@   requires g != nil && g.link != nil && req != nil
-//@   modifies nothing
+//@   modifies FDSRC, FDDST
 //@   serves C02 C07
 //@   loop range(ies):
-//@     modifies nothing
+//@     modifies FDSRC, FDDST
 //@   at call newPdi:
 //@     assert [pdi]  arg0 == i
 //@   at call append#1:
@@ -368,13 +374,13 @@ package forwarder
 
 //@ func (g *Gtp5g) newPdi(i *ie.IE) (attrs nl.AttrList, err error)
 //@   requires g != nil && i != nil
-//@   modifies nothing
+//@   modifies FDSRC, FDDST
 //@   serves C02 C07
 //@   loop range(ies):
 //@     modifies nothing
 //@     invariant [sdf] forall j int :: 0 <= j && j < len(sdfIEs) ==> sdfIEs[j] != nil
 //@   loop range(sdfIEs):
-//@     modifies nothing
+//@     modifies FDSRC, FDDST
 //@   at call append#1:
 //@     assert [srcif] len(arg1) == 1 && arg1[0].Type == gtp5gnl.PDI_SRC_INTF && arg1[0].Value == iface(nl.AttrU8(v))
 //@   at call append#2:
@@ -430,7 +436,7 @@ package forwarder
 
 //@ func (g *Gtp5g) newSdfFilter(i *ie.IE, srcIf uint8) (attrs nl.AttrList, err error)
 //@   requires g != nil && i != nil
-//@   modifies nothing
+//@   modifies FDSRC, FDDST
 //@   serves C02 C16 C07
 //@   at call newFlowDesc:
 //@     assert [swap] arg0 == v.FlowDescription && arg1 == (srcIf == ie.SrcInterfaceAccess)
@@ -505,3 +511,42 @@ package forwarder
 //@     assert [dst]    (arg0 == token[6] && token[5] == "to" && fd.SrcPorts == nil) || (arg0 == token[7] && token[6] == "to" && len(token) > 7)
 //@   at call ParseFlowDescPorts#2:
 //@     assert [dports] (arg0 == token[7] && token[5] == "to") || (arg0 == token[8] && token[6] == "to")
+
+// The filter handed to gtp5g: nine attributes in a fixed order; for uplink PDRs (swapSrcDst) the parsed source and
+// destination networks change places.  FDSRC / FDDST remember what ParseFlowDesc returned.
+//@ ghost FDSRC *net.IPNet
+//@ ghost FDDST *net.IPNet
+//@ func (g *Gtp5g) newFlowDesc(s string, swapSrcDst bool) (attrs nl.AttrList, err error)
+//@   requires g != nil
+//@   ensures [nine] err == nil ==> len(attrs) == 9
+//@   modifies FDSRC, FDDST
+//@   serves C16 C02 C07
+//@   after call ParseFlowDesc:
+//@     set FDSRC := ret0.Src
+//@     set FDDST := ret0.Dst
+//@   at call ParseFlowDesc:
+//@     assert [arg]    arg0 == s
+//@   at call append#1:
+//@     assert [action] len(arg1) == 1 && arg1[0].Type == gtp5gnl.FLOW_DESCRIPTION_ACTION && arg1[0].Value == iface(nl.AttrU8(gtp5gnl.SDF_FILTER_PERMIT)) && fd.Action == "permit"
+//@   at call append#2:
+//@     assert [in]     len(arg1) == 1 && arg1[0].Type == gtp5gnl.FLOW_DESCRIPTION_DIRECTION && arg1[0].Value == iface(nl.AttrU8(gtp5gnl.SDF_FILTER_IN)) && fd.Dir == "in"
+//@   at call append#3:
+//@     assert [out]    len(arg1) == 1 && arg1[0].Type == gtp5gnl.FLOW_DESCRIPTION_DIRECTION && arg1[0].Value == iface(nl.AttrU8(gtp5gnl.SDF_FILTER_OUT)) && fd.Dir == "out"
+//@   at call append#4:
+//@     assert [proto]  len(arg1) == 1 && arg1[0].Type == gtp5gnl.FLOW_DESCRIPTION_PROTOCOL && arg1[0].Value == iface(nl.AttrU8(fd.Proto))
+//@   at call append#5:
+//@     assert [srcip]  len(arg1) == 1 && arg1[0].Type == gtp5gnl.FLOW_DESCRIPTION_SRC_IPV4 && fd.Src == ite(swapSrcDst, FDDST, FDSRC) && arg1[0].Value == iface(nl.AttrBytes(fd.Src.IP))
+//@   at call append#6:
+//@     assert [srcmsk] len(arg1) == 1 && arg1[0].Type == gtp5gnl.FLOW_DESCRIPTION_SRC_MASK && arg1[0].Value == iface(nl.AttrBytes(fd.Src.Mask))
+//@   at call append#7:
+//@     assert [dstip]  len(arg1) == 1 && arg1[0].Type == gtp5gnl.FLOW_DESCRIPTION_DEST_IPV4 && fd.Dst == ite(swapSrcDst, FDSRC, FDDST) && arg1[0].Value == iface(nl.AttrBytes(fd.Dst.IP))
+//@   at call append#8:
+//@     assert [dstmsk] len(arg1) == 1 && arg1[0].Type == gtp5gnl.FLOW_DESCRIPTION_DEST_MASK && arg1[0].Value == iface(nl.AttrBytes(fd.Dst.Mask))
+//@   at call convertSlice#1:
+//@     assert [sports] arg0 == fd.SrcPorts
+//@   at call append#9:
+//@     assert [sport]  len(arg1) == 1 && arg1[0].Type == gtp5gnl.FLOW_DESCRIPTION_SRC_PORT
+//@   at call convertSlice#2:
+//@     assert [dports] arg0 == fd.DstPorts
+//@   at call append#10:
+//@     assert [dport]  len(arg1) == 1 && arg1[0].Type == gtp5gnl.FLOW_DESCRIPTION_DEST_PORT
